@@ -44,7 +44,12 @@ _NP = ["permutation", "shuffle", "choice", "randint", "normal", "random", "rand"
 class Tape:
     """mode 'log': delegate to the real global generators and record; mode 'script': serve scripted draws."""
 
-    def __init__(self, mode="log", script=None, sink=None):
+    EXTREME_U01 = [1e-300, 1e-40, 1e-17, 2.0 ** -53, 0.5, 0.999, 1 - 2.0 ** -53, 1e-5, 0.25]
+
+    def __init__(self, mode="log", script=None, sink=None, rng=None):
+        """mode: "log" (real generators, recorded) | "script" (scripted draws) | "extreme" (legal but extreme outcomes:
+        uniforms next to 0 and 1, first / last index) - every outcome of a draw is a possible outcome"""
+        self.rng = rng
         self.mode = mode
         self.script = list(script or [])
         self.log = []
@@ -123,6 +128,8 @@ class Tape:
             raise ValueError("empty range for %s" % api)
         if self.mode == "script":
             v = self._next("uniform", m, api)
+        elif self.mode == "extreme":
+            v = self.rng.choice([0, m - 1]) if self.rng.random() < 0.35 else self.rng.randrange(m)
         else:
             v = orig()
         self._emit("uniform", m, int(v), api)
@@ -140,6 +147,8 @@ class Tape:
     def _u01(self):
         if self.mode == "script":
             v = self._next("u01", None, "random.random")
+        elif self.mode == "extreme":
+            v = self.rng.choice(self.EXTREME_U01) if self.rng.random() < 0.35 else self.rng.random()
         else:
             v = self._orig[("py", "random")]()
         self._emit("u01", None, v, "random.random")
@@ -276,6 +285,8 @@ class Tape:
         for _ in range(n):
             if self.mode == "script":
                 v = self._next("u01", None, "np.random.random")
+            elif self.mode == "extreme":
+                v = self.rng.choice(self.EXTREME_U01) if self.rng.random() < 0.35 else self.rng.random()
             else:
                 v = float(self._orig[("np", "random")]())
             self._emit("u01", None, v, "np.random.random")
